@@ -231,3 +231,5 @@ def check(run: Run) -> None:
     from ..report import run_stage
 
     run_stage(run, "c18", only={"C18.R1", "C18.R2"})
+    run.rule("C14.R7", "helpers that package values are inlined whenever the call binds every parameter (C05.R12 re-evaluated): a called lambda that is left behind keeps its tuple / dictionary in the query")
+    run_stage(run, "c05", only={"C05.R12"})
